@@ -56,6 +56,8 @@ type Failure struct {
 	Decs    []Dec
 	Nondet  []uint64
 	Chooses []int64
+	Env     []int64 // environment events in the order they completed (goroutine tier)
+	LibPrio bool    // found by the library-priority re-exploration (natively stageable schedule)
 }
 
 type PathResult struct {
@@ -69,9 +71,11 @@ type PathResult struct {
 	AssertsFold  int // obligations that folded to true
 	Covers       []string
 	Witness      *Witness
+	Probe        *Witness // model of the path condition of a path the engine had to give up on
 	Inconclusive []string
 	FuncsSeen    map[string]bool
 	NDec         int
+	RaceChecks   int
 }
 
 // Witness is a concrete model of a completed path (reachability twin and
@@ -81,6 +85,7 @@ type Witness struct {
 	Chooses  []int64
 	Observes []ObsVal
 	Decs     []Dec
+	Env      []int64
 }
 
 type ObsVal struct {
@@ -135,6 +140,9 @@ type Exec struct {
 	curFn       *ssa.Function
 	wantWitness bool
 	trace       bool
+	envTrace    []int64
+	libPrio     bool
+	raceChecks  int
 }
 
 func (e *Exec) curSite() string {
